@@ -16,7 +16,7 @@ namespace ratio
         new_fields(args);
     }
 
-    std::optional<item *> method::invoke(context &ctx, const std::vector<expr> &exprs)
+    std::optional<expr> method::invoke(context &ctx, const std::vector<expr> &exprs)
     {
         assert(args.size() == exprs.size());
         context c_ctx(new env(get_core(), context(ctx)));
@@ -27,8 +27,8 @@ namespace ratio
             dynamic_cast<const ast::statement *>(s)->execute(*this, c_ctx);
 
         if (return_type.has_value())
-            return &*c_ctx->exprs.at(RETURN_KEYWORD);
+            return c_ctx->exprs.at(RETURN_KEYWORD);
         else
-            return nullptr;
+            return std::nullopt;
     }
 } // namespace ratio
